@@ -932,3 +932,362 @@ Theorem C13_idem : forall t t1 t2, tree_stats t = Ok t1 -> tree_stats t1 = Ok t2
 Proof. intros t t1 t2 H H2. rewrite (tree_stats_idem _ _ H) in H2. congruence. Qed.
 (* and generating on an already generated tree never fails *)
 Definition C13_idem_total := tree_stats_idem.
+
+(* ================================================================================================ *)
+(* C19 — typed attributes                                                                            *)
+(* ================================================================================================ *)
+Definition in_choices (v : wv) (cs : list bytes) : Prop := exists c, In c cs /\ v = WStr (ascii_text c).
+(* the value has the declared type and, when the attribute declares a non-empty choice list, is one of the choices *)
+Definition typed_ok (ty : atype) (choices : option (list bytes)) (v : wv) : Prop :=
+  has_type ty v = true /\ forall cs, choices = Some cs -> cs <> [] -> in_choices v cs.
+
+Lemma in_strset_true : forall v cs, in_strset v cs = Ok true -> in_choices v cs.
+Proof.
+  intros v cs H. destruct v; cbn in H; try discriminate. injection H as H.
+  apply existsb_exists in H. destruct H as (c & I & E). apply teq_eq in E. exists c. subst. auto.
+Qed.
+
+Theorem C19_set_option : forall o name ty choices v o', set_option o name ty choices v = Ok o' ->
+  typed_ok ty choices v /\ o' = assoc_set beq name v o.
+Proof.
+  intros o name ty choices v o' H. unfold set_option in H.
+  destruct (has_type ty v) eqn:T; cbn in H; try discriminate.
+  destruct choices as [cs|].
+  - destruct (in_strset v cs) as [[|]|] eqn:I; try discriminate.
+    + injection H as <-. repeat split; auto. intros cs' E _. injection E as <-. apply in_strset_true; auto.
+    + destruct cs; cbn in H; try discriminate. injection H as <-. repeat split; auto.
+      intros cs' E N. injection E as <-. contradiction.
+  - injection H as <-. repeat split; auto. discriminate.
+Qed.
+(* conversely a well-typed value in the choice list is always stored *)
+Theorem C19_set_option_accepts : forall o name ty choices v,
+  has_type ty v = true -> (forall cs, choices = Some cs -> in_choices v cs) ->
+  set_option o name ty choices v = Ok (assoc_set beq name v o).
+Proof.
+  intros o name ty choices v T C. unfold set_option. rewrite T. cbn.
+  destruct choices as [cs|]; auto. destruct (C cs eq_refl) as (c & I & ->). cbn.
+  replace (existsb (fun x => teq (ascii_text c) (ascii_text x)) cs) with true; auto.
+  symmetry. apply existsb_exists. exists c. split; auto. apply teq_refl.
+Qed.
+
+(* declared type and choices of every option attribute of the three content sections *)
+Definition psec_attr (a : bytes) : option (atype * option (list bytes)) :=
+  if beq a (B "encoding") then Some (TStr, None)
+  else if beq a (B "indent") then Some (TInt, None)
+  else if beq a (B "line_endings") then Some (TStr, Some GenText.line_endings_values)
+  else if beq a (B "mimetype") then Some (TStr, Some GenText.mimetypes)
+  else None.
+Definition msec_attr (a : bytes) : option (atype * option (list bytes)) :=
+  if beq a (B "encoding") then Some (TStr, None)
+  else if beq a (B "format") then Some (TStr, Some GenText.meta_formats)
+  else None.
+Definition dsec_attr (a : bytes) : option (atype * option (list bytes)) :=
+  if beq a (B "encoding") then Some (TStr, None)
+  else if beq a (B "line_endings") then Some (TStr, Some GenText.line_endings_values)
+  else if beq a (B "type") then Some (TStr, Some GenText.diff_types)
+  else None.
+
+(* what an accepted assignment does to one content section: either the content or exactly one option is replaced *)
+Definition psec_upd (s s' : psec) (v : wv) : Prop :=
+  (exists t, v = WStr t /\ s' = {| p_opts := p_opts s; p_content := Some t |}) \/
+  (exists k ty ch, psec_attr k = Some (ty, ch) /\ typed_ok ty ch v /\
+                   (k = B "indent" -> exists z, v = WInt z /\ (0 <= z)%Z) /\
+                   s' = {| p_opts := assoc_set beq k v (p_opts s); p_content := p_content s |}).
+Definition msec_upd (s s' : msec) (v : wv) : Prop :=
+  (exists kv, v = WDict (JObj kv) /\ s' = {| m_opts := m_opts s; m_content := kv |}) \/
+  (exists k ty ch, msec_attr k = Some (ty, ch) /\ typed_ok ty ch v /\
+                   s' = {| m_opts := assoc_set beq k v (m_opts s); m_content := m_content s |}).
+Definition dsec_upd (s s' : dsec) (v : wv) : Prop :=
+  (exists b, v = WBytes b /\ s' = {| x_opts := x_opts s; x_content := Some b |}) \/
+  (exists k ty ch, dsec_attr k = Some (ty, ch) /\ typed_ok ty ch v /\
+                   s' = {| x_opts := assoc_set beq k v (x_opts s); x_content := x_content s |}).
+
+Ltac beq_case a s :=
+  let E := fresh "E" in destruct (beq a (B s)) eqn:E; [apply beq_eq in E; subst a|].
+
+Lemma set_option_bind : forall {S} o k ty ch v (mk : dopts -> S) s',
+  (do o' <- set_option o k ty ch v; Ok (mk o')) = Ok s' -> typed_ok ty ch v /\ s' = mk (assoc_set beq k v o).
+Proof. intros S o k ty ch v mk s' H. inv_bind H. injection H as <-. apply C19_set_option in E as [T ->]. auto. Qed.
+
+Lemma set_psec_ok : forall s a v s', set_psec s a v = Ok s' -> psec_upd s s' v.
+Proof.
+  intros s a v s' H. unfold set_psec in H. cbv zeta in H.
+  beq_case a "content".
+  { destruct v; try discriminate. injection H as <-. left. eauto. }
+  right.
+  beq_case a "encoding".
+  { apply set_option_bind in H as [T ->]. exists (B "encoding"), TStr, None.
+    split; [reflexivity|]. split; [exact T|]. split; [discriminate|reflexivity]. }
+  beq_case a "indent".
+  { assert (X : (do o <- set_option (p_opts s) (B "indent") TInt None v; Ok {| p_opts := o; p_content := p_content s |}) = Ok s' ->
+                (exists z, v = WInt z /\ (0 <= z)%Z) ->
+                exists k ty ch, psec_attr k = Some (ty, ch) /\ typed_ok ty ch v /\
+                  (k = B "indent" -> exists z, v = WInt z /\ (0 <= z)%Z) /\
+                  s' = {| p_opts := assoc_set beq k v (p_opts s); p_content := p_content s |}).
+    { intros SO Z. apply set_option_bind in SO as [T ->]. exists (B "indent"), TInt, None.
+      split; [reflexivity|]. split; [exact T|]. split; [auto|reflexivity]. }
+    destruct v; try discriminate; try (apply set_option_bind in H as [[T _] _]; discriminate T).
+    destruct (z <? 0)%Z eqn:Z; try discriminate. apply X; auto. exists z. split; auto. lia. }
+  beq_case a "line_endings".
+  { apply set_option_bind in H as [T ->]. exists (B "line_endings"), TStr, (Some GenText.line_endings_values).
+    split; [reflexivity|]. split; [exact T|]. split; [discriminate|reflexivity]. }
+  beq_case a "mimetype".
+  { apply set_option_bind in H as [T ->]. exists (B "mimetype"), TStr, (Some GenText.mimetypes).
+    split; [reflexivity|]. split; [exact T|]. split; [discriminate|reflexivity]. }
+  discriminate.
+Qed.
+Lemma set_msec_ok : forall s a v s', set_msec s a v = Ok s' -> msec_upd s s' v.
+Proof.
+  intros s a v s' H. unfold set_msec in H. cbv zeta in H.
+  beq_case a "content".
+  { destruct v as [| | | | |j|]; try discriminate. destruct j; try discriminate. injection H as <-. left. eauto. }
+  right.
+  beq_case a "encoding".
+  { apply set_option_bind in H as [T ->]. exists (B "encoding"), TStr, None.
+    split; [reflexivity|]. split; [exact T|reflexivity]. }
+  beq_case a "format".
+  { apply set_option_bind in H as [T ->]. exists (B "format"), TStr, (Some GenText.meta_formats).
+    split; [reflexivity|]. split; [exact T|reflexivity]. }
+  discriminate.
+Qed.
+Lemma set_dsec_ok : forall s a v s', set_dsec s a v = Ok s' -> dsec_upd s s' v.
+Proof.
+  intros s a v s' H. unfold set_dsec in H. cbv zeta in H.
+  beq_case a "content".
+  { destruct v; try discriminate. injection H as <-. left. eauto. }
+  right.
+  beq_case a "encoding".
+  { apply set_option_bind in H as [T ->]. exists (B "encoding"), TStr, None.
+    split; [reflexivity|]. split; [exact T|reflexivity]. }
+  beq_case a "line_endings".
+  { apply set_option_bind in H as [T ->]. exists (B "line_endings"), TStr, (Some GenText.line_endings_values).
+    split; [reflexivity|]. split; [exact T|reflexivity]. }
+  beq_case a "type".
+  { apply set_option_bind in H as [T ->]. exists (B "type"), TStr, (Some GenText.diff_types).
+    split; [reflexivity|]. split; [exact T|reflexivity]. }
+  discriminate.
+Qed.
+
+(* the three containers: on success exactly one of the container's own options or one of its content sections is
+   updated, by a value of the declared type and choice; everything else — in particular the list of children —
+   is what it was *)
+Theorem C19_set_ok_file : forall f name v f', set_file_attr f name v = Ok f' ->
+  (typed_ok TStr None v /\ f' = {| f_opts := assoc_set beq (B "encoding") v (f_opts f); f_meta := f_meta f; f_diff := f_diff f |}) \/
+  (exists m', msec_upd (f_meta f) m' v /\ f' = {| f_opts := f_opts f; f_meta := m'; f_diff := f_diff f |}) \/
+  (exists d', dsec_upd (f_diff f) d' v /\ f' = {| f_opts := f_opts f; f_meta := f_meta f; f_diff := d' |}).
+Proof.
+  intros f name v f' H. unfold set_file_attr in H.
+  beq_case name "encoding".
+  { apply set_option_bind in H as [T ->]. left. auto. }
+  destruct (forwarded "meta" name) as [a|].
+  { inv_bind H. injection H as <-. right. left. exists x. split; auto. eapply set_msec_ok; eauto. }
+  destruct (forwarded "diff" name) as [a|]; try discriminate.
+  inv_bind H. injection H as <-. right. right. exists x. split; auto. eapply set_dsec_ok; eauto.
+Qed.
+Theorem C19_set_ok_change : forall c name v c', set_change_attr c name v = Ok c' ->
+  c_files c' = c_files c /\
+  ((typed_ok TStr None v /\
+    c' = {| c_opts := assoc_set beq (B "encoding") v (c_opts c); c_pre := c_pre c; c_meta := c_meta c; c_files := c_files c |}) \/
+   (exists m', msec_upd (c_meta c) m' v /\ c' = {| c_opts := c_opts c; c_pre := c_pre c; c_meta := m'; c_files := c_files c |}) \/
+   (exists p', psec_upd (c_pre c) p' v /\ c' = {| c_opts := c_opts c; c_pre := p'; c_meta := c_meta c; c_files := c_files c |})).
+Proof.
+  intros c name v c' H. unfold set_change_attr in H.
+  beq_case name "encoding".
+  { apply set_option_bind in H as [T ->]. split; auto. }
+  destruct (forwarded "meta" name) as [a|].
+  { inv_bind H. injection H as <-. split; auto. right. left. exists x. split; auto. eapply set_msec_ok; eauto. }
+  destruct (forwarded "preamble" name) as [a|]; try discriminate.
+  inv_bind H. injection H as <-. split; auto. right. right. exists x. split; auto. eapply set_psec_ok; eauto.
+Qed.
+Theorem C19_set_ok_tree : forall t name v t', set_tree_attr t name v = Ok t' ->
+  d_changes t' = d_changes t /\
+  ((exists k ty ch, (k = B "encoding" /\ ty = TStr /\ ch = None \/ k = B "version" /\ ty = TStr /\ ch = Some GenText.versions) /\
+      typed_ok ty ch v /\
+      t' = {| d_opts := assoc_set beq k v (d_opts t); d_pre := d_pre t; d_meta := d_meta t; d_changes := d_changes t |}) \/
+   (exists m', msec_upd (d_meta t) m' v /\ t' = {| d_opts := d_opts t; d_pre := d_pre t; d_meta := m'; d_changes := d_changes t |}) \/
+   (exists p', psec_upd (d_pre t) p' v /\ t' = {| d_opts := d_opts t; d_pre := p'; d_meta := d_meta t; d_changes := d_changes t |})).
+Proof.
+  intros t name v t' H. unfold set_tree_attr in H.
+  beq_case name "encoding".
+  { apply set_option_bind in H as [T ->]. split; auto.
+    left. exists (B "encoding"), TStr, None. auto. }
+  beq_case name "version".
+  { apply set_option_bind in H as [T ->]. split; auto.
+    left. exists (B "version"), TStr, (Some GenText.versions). auto 6. }
+  destruct (forwarded "meta" name) as [a|].
+  { inv_bind H. injection H as <-. split; auto. right. left. exists x. split; auto. eapply set_msec_ok; eauto. }
+  destruct (forwarded "preamble" name) as [a|]; try discriminate.
+  inv_bind H. injection H as <-. split; auto. right. right. exists x. split; auto. eapply set_psec_ok; eauto.
+Qed.
+
+(* assignment at a path inside tree i (DomOps.set_at): the addressed container is updated by its setter, every other
+   change / file stays what it was *)
+Lemma upd_nth_spec : forall {A} i (f : A -> res A) l l', upd_nth i f l = Some (Ok l') ->
+  exists x y, nth_error l i = Some x /\ f x = Ok y /\ nth_error l' i = Some y /\ length l' = length l /\
+              forall j, j <> i -> nth_error l' j = nth_error l j.
+Proof.
+  intros A i f l l' H. destruct (upd_nth_target _ _ _ _ H) as (x & y & H1 & H2 & H3).
+  exists x, y. repeat split; auto. eapply upd_nth_length; eauto. eapply upd_nth_frame; eauto.
+Qed.
+Theorem C19_set_ok_at : forall p name v t t', set_at p name v t = Some (Ok t') ->
+  match p with
+  | PMain => set_tree_attr t name v = Ok t'
+  | PChange ci =>
+      d_opts t' = d_opts t /\ d_pre t' = d_pre t /\ d_meta t' = d_meta t /\ length (d_changes t') = length (d_changes t) /\
+      (forall j, j <> ci -> nth_error (d_changes t') j = nth_error (d_changes t) j) /\
+      exists c c', nth_error (d_changes t) ci = Some c /\ nth_error (d_changes t') ci = Some c' /\ set_change_attr c name v = Ok c'
+  | PFile ci fi =>
+      d_opts t' = d_opts t /\ d_pre t' = d_pre t /\ d_meta t' = d_meta t /\ length (d_changes t') = length (d_changes t) /\
+      (forall j, j <> ci -> nth_error (d_changes t') j = nth_error (d_changes t) j) /\
+      exists c c', nth_error (d_changes t) ci = Some c /\ nth_error (d_changes t') ci = Some c' /\
+        c_opts c' = c_opts c /\ c_pre c' = c_pre c /\ c_meta c' = c_meta c /\ length (c_files c') = length (c_files c) /\
+        (forall j, j <> fi -> nth_error (c_files c') j = nth_error (c_files c) j) /\
+        exists f f', nth_error (c_files c) fi = Some f /\ nth_error (c_files c') fi = Some f' /\ set_file_attr f name v = Ok f'
+  end.
+Proof.
+  intros p name v t t' H. destruct p as [|ci|ci fi]; cbn in H.
+  - injection H; auto.
+  - unfold on_change in H. destruct (upd_nth ci _ (d_changes t)) as [r|] eqn:U; try discriminate.
+    injection H as H. inv_bind H. injection H as <-. subst r. cbn.
+    destruct (upd_nth_spec _ _ _ _ U) as (c & c' & N1 & S & N2 & L & F). repeat split; auto. eauto 6.
+  - unfold on_file, on_change in H. destruct (upd_nth ci _ (d_changes t)) as [r|] eqn:U; try discriminate.
+    injection H as H. inv_bind H. injection H as <-. subst r. cbn.
+    destruct (upd_nth_spec _ _ _ _ U) as (c & c' & N1 & S & N2 & L & F). repeat split; auto.
+    exists c, c'. repeat split; auto;
+      destruct (upd_nth fi _ (c_files c)) as [r|] eqn:U2; try discriminate; inv_bind S; injection S as <-; subst r; cbn; auto;
+      destruct (upd_nth_spec _ _ _ _ U2) as (f & f' & M1 & S2 & M2 & L2 & F2); auto. eauto 6.
+Qed.
+
+(* ---- constructors: unknown attribute names ---- *)
+Lemma bstarts_skipn : forall p l, bstarts p l = true -> l = p ++ skipn (length p) l.
+Proof.
+  unfold bstarts. induction p as [|x p IH]; intros [|y l] H; cbn in *; try discriminate; auto.
+  apply andb_true_iff in H as [H1 H2]. apply byte_dec_bl in H1. subst. f_equal. auto.
+Qed.
+Lemma forwarded_some : forall pre name a, forwarded pre name = Some a ->
+  (name = B pre /\ a = B "content") \/ (name = B pre ++ B "_" ++ a /\ a <> B "content").
+Proof.
+  intros pre name a H. unfold forwarded in H.
+  destruct (beq name (B pre)) eqn:E.
+  - apply beq_eq in E. injection H as <-. auto.
+  - destruct (bstarts (B pre ++ B "_") name) eqn:S; try discriminate.
+    cbv zeta in H. destruct (beq _ (B "content")) eqn:C; try discriminate. injection H as <-.
+    right. split.
+    + apply bstarts_skipn in S. rewrite app_length in S. cbn [length B String.list_byte_of_string] in S.
+      rewrite <- app_assoc in S. exact S.
+    + intro F. rewrite F in C. rewrite beq_refl in C. discriminate.
+Qed.
+
+Definition msec_names : list bytes := [B "content"; B "encoding"; B "format"].
+Definition psec_names : list bytes := [B "content"; B "encoding"; B "indent"; B "line_endings"; B "mimetype"].
+Definition dsec_names : list bytes := [B "content"; B "encoding"; B "line_endings"; B "type"].
+Lemma set_msec_unknown : forall s a v, ~ In a msec_names -> set_msec s a v = Err EAttribute.
+Proof.
+  intros s a v N. unfold set_msec. cbv zeta.
+  repeat (rewrite beq_neq; [|intro; subst; apply N; cbn; tauto]). reflexivity.
+Qed.
+Lemma set_psec_unknown : forall s a v, ~ In a psec_names -> set_psec s a v = Err EAttribute.
+Proof.
+  intros s a v N. unfold set_psec. cbv zeta.
+  repeat (rewrite beq_neq; [|intro; subst; apply N; cbn; tauto]). reflexivity.
+Qed.
+Lemma set_dsec_unknown : forall s a v, ~ In a dsec_names -> set_dsec s a v = Err EAttribute.
+Proof.
+  intros s a v N. unfold set_dsec. cbv zeta.
+  repeat (rewrite beq_neq; [|intro; subst; apply N; cbn; tauto]). reflexivity.
+Qed.
+
+(* the attribute names of the three container classes (dom/properties.py mixins) *)
+Definition file_attr_names : list bytes :=
+  [B "encoding"; B "meta"; B "meta_encoding"; B "meta_format"; B "diff"; B "diff_encoding"; B "diff_line_endings"; B "diff_type"].
+Definition change_attr_names : list bytes :=
+  [B "encoding"; B "meta"; B "meta_encoding"; B "meta_format";
+   B "preamble"; B "preamble_encoding"; B "preamble_indent"; B "preamble_line_endings"; B "preamble_mimetype"].
+Definition tree_attr_names : list bytes := B "version" :: change_attr_names.
+
+(* a forwarded name that is not in the list of names reaches a content section with an attribute it does not have *)
+Lemma forwarded_unknown : forall pre name a (names sec_names : list bytes),
+  forwarded pre name = Some a -> ~ In name names ->
+  In (B pre) names -> (forall x, In x sec_names -> x <> B "content" -> In (B pre ++ B "_" ++ x) names) ->
+  ~ In a sec_names.
+Proof.
+  intros pre name a names sec_names F N P Q I.
+  destruct (forwarded_some _ _ _ F) as [[-> ->]|[-> C]]; auto.
+Qed.
+
+Lemma set_file_attr_unknown : forall f name v, ~ In name file_attr_names -> set_file_attr f name v = Err EAttribute.
+Proof.
+  intros f name v N. unfold set_file_attr.
+  rewrite beq_neq by (intro; subst; apply N; cbn; tauto).
+  destruct (forwarded "meta" name) as [a|] eqn:F1.
+  { rewrite set_msec_unknown; auto. eapply forwarded_unknown; eauto; [cbn; tauto|].
+    intros x I C. cbn in I. destruct I as [<-|[<-|[<-|[]]]]; try congruence; vm_compute; tauto. }
+  destruct (forwarded "diff" name) as [a|] eqn:F2; auto.
+  rewrite set_dsec_unknown; auto. eapply forwarded_unknown; eauto; [cbn; tauto|].
+  intros x I C. cbn in I. destruct I as [<-|[<-|[<-|[<-|[]]]]]; try congruence; vm_compute; tauto.
+Qed.
+Lemma set_change_attr_unknown : forall c name v, ~ In name change_attr_names -> set_change_attr c name v = Err EAttribute.
+Proof.
+  intros c name v N. unfold set_change_attr.
+  rewrite beq_neq by (intro; subst; apply N; cbn; tauto).
+  destruct (forwarded "meta" name) as [a|] eqn:F1.
+  { rewrite set_msec_unknown; auto. eapply forwarded_unknown; eauto; [cbn; tauto|].
+    intros x I C. cbn in I. destruct I as [<-|[<-|[<-|[]]]]; try congruence; vm_compute; tauto. }
+  destruct (forwarded "preamble" name) as [a|] eqn:F2; auto.
+  rewrite set_psec_unknown; auto. eapply forwarded_unknown; eauto; [cbn; tauto|].
+  intros x I C. cbn in I. destruct I as [<-|[<-|[<-|[<-|[<-|[]]]]]]; try congruence; vm_compute; tauto.
+Qed.
+Lemma set_tree_attr_unknown : forall t name v, ~ In name tree_attr_names -> set_tree_attr t name v = Err EAttribute.
+Proof.
+  intros t name v N. unfold set_tree_attr.
+  rewrite beq_neq by (intro; subst; apply N; cbn; tauto).
+  rewrite beq_neq by (intro; subst; apply N; cbn; tauto).
+  destruct (forwarded "meta" name) as [a|] eqn:F1.
+  { rewrite set_msec_unknown; auto. eapply forwarded_unknown; eauto; [cbn; tauto|].
+    intros x I C. cbn in I. destruct I as [<-|[<-|[<-|[]]]]; try congruence; vm_compute; tauto. }
+  destruct (forwarded "preamble" name) as [a|] eqn:F2; auto.
+  rewrite set_psec_unknown; auto. eapply forwarded_unknown; eauto; [cbn; tauto|].
+  intros x I C. cbn in I. destruct I as [<-|[<-|[<-|[<-|[<-|[]]]]]]; try congruence; vm_compute; tauto.
+Qed.
+
+Lemma apply_attrs_app : forall {T} (set : T -> bytes -> wv -> res T) a b x,
+  apply_attrs set x (a ++ b) = do x' <- apply_attrs set x a; apply_attrs set x' b.
+Proof.
+  induction a as [|[k v] a IH]; intros b x; cbn; auto.
+  destruct (unknown_to_lib (set x k v)); cbn; auto.
+Qed.
+Lemma apply_attrs_unknown : forall {T} (set : T -> bytes -> wv -> res T) (names : list bytes) x0 pre k v post x1,
+  (forall x name v, ~ In name names -> set x name v = Err EAttribute) ->
+  apply_attrs set x0 pre = Ok x1 -> ~ In k names ->
+  apply_attrs set x0 (pre ++ (k, v) :: post) = Err ELibUnknownOption.
+Proof.
+  intros T set names x0 pre k v post x1 U A N. rewrite apply_attrs_app, A. cbn. rewrite U; auto.
+Qed.
+(* an attribute name the class does not have makes the constructor raise DiffXUnknownOptionError
+   (when the attributes before it were accepted; otherwise the first rejected one raises) *)
+Theorem C19_ctor_unknown : forall pre k v post,
+  (forall c1, apply_attrs set_change_attr new_change pre = Ok c1 -> ~ In k change_attr_names ->
+              apply_attrs set_change_attr new_change (pre ++ (k, v) :: post) = Err ELibUnknownOption) /\
+  (forall f1, apply_attrs set_file_attr new_file pre = Ok f1 -> ~ In k file_attr_names ->
+              apply_attrs set_file_attr new_file (pre ++ (k, v) :: post) = Err ELibUnknownOption) /\
+  (forall t1, apply_attrs set_tree_attr new_tree pre = Ok t1 -> ~ In k tree_attr_names ->
+              apply_attrs set_tree_attr new_tree (pre ++ (k, v) :: post) = Err ELibUnknownOption).
+Proof.
+  intros; repeat split; intros.
+  - eapply apply_attrs_unknown; eauto. apply set_change_attr_unknown.
+  - eapply apply_attrs_unknown; eauto. apply set_file_attr_unknown.
+  - eapply apply_attrs_unknown; eauto. apply set_tree_attr_unknown.
+Qed.
+(* in any case the constructor never succeeds when some attribute name is unknown *)
+Lemma apply_attrs_never_ok : forall {T} (set : T -> bytes -> wv -> res T) (names : list bytes) attrs x0 x1,
+  (forall x name v, ~ In name names -> set x name v = Err EAttribute) ->
+  apply_attrs set x0 attrs = Ok x1 -> forall k, In k (map fst attrs) -> In k names.
+Proof.
+  induction attrs as [|[k0 v0] attrs IH]; cbn; intros x0 x1 U A k I; [tauto|].
+  destruct (in_dec (list_eq_dec Byte.byte_eq_dec) k0 names) as [Y|Nn].
+  - destruct I as [<-|I]; auto. destruct (unknown_to_lib (set x0 k0 v0)) eqn:E; cbn in A; try discriminate. eapply IH; eauto.
+  - rewrite U in A by auto. discriminate.
+Qed.
+Theorem C19_ctor_names : forall attrs c, apply_attrs set_change_attr new_change attrs = Ok c ->
+  forall k, In k (map fst attrs) -> In k change_attr_names.
+Proof. intros. eapply apply_attrs_never_ok; eauto. apply set_change_attr_unknown. Qed.
